@@ -687,7 +687,8 @@ def deserialize_problem(combinator: Combinator[T], serialized: str, **kwargs: An
         return None
     assert tmp is not None
     problem = tmp[1]
-    assert len(problem) == 1
+    if len(problem) != 1:
+        raise ValueError("serialized text does not describe exactly one problem")
     return problem[0]
 
 
